@@ -1202,6 +1202,19 @@ func estResult(ans string, err error) string {
 	return "l" + ans
 }
 
+// boundedCell runs one cell and turns "it never came back" into that cell's result (the cell's goroutine is abandoned): a
+// wedged broker costs the cell that wedged it — reported with that cell as the failing input — not the whole run.
+func boundedCell(d time.Duration, f func() (string, string)) (impl, pred string) {
+	_, hung, pp := withTimeout(d, func() error { impl, pred = f(); return nil })
+	switch {
+	case hung:
+		return "hang", "FAIL:cell-did-not-return"
+	case pp != nil:
+		return "panic", "FAIL:cell-panicked"
+	}
+	return impl, pred
+}
+
 func setMuxMidDelay(ms int) {
 	if ms == 0 {
 		plugin.VerifSetPoint("grpcbroker.accept.mux-mid", nil)
@@ -1266,7 +1279,9 @@ func init() {
 			setMuxMidDelay(delay)
 			impls := make([]string, len(cases))
 			preds := make([]string, len(cases))
-			parallel(len(cases), 16, func(i int) { impls[i], preds[i] = runMuxCase(cases[i]) })
+			parallel(len(cases), 16, func(i int) {
+				impls[i], preds[i] = boundedCell(90*time.Second, func() (string, string) { return runMuxCase(cases[i]) })
+			})
 			setMuxMidDelay(0)
 			for i, c := range cases {
 				o.emit(c.line(), impls[i], preds[i])
@@ -1275,13 +1290,15 @@ func init() {
 		// a long-lived listener dialled twice, the second time after every pending window has passed
 		type rd struct{ role, impl, pred string }
 		rds := []*rd{{role: "server"}, {role: "client"}}
-		parallel(len(rds), len(rds), func(i int) { rds[i].impl, rds[i].pred = runMuxRedial(rds[i].role, 5600*time.Millisecond) })
+		parallel(len(rds), len(rds), func(i int) {
+			rds[i].impl, rds[i].pred = boundedCell(90*time.Second, func() (string, string) { return runMuxRedial(rds[i].role, 5600*time.Millisecond) })
+		})
 		for _, x := range rds {
 			o.emit("!C08.redial role="+x.role+" gap=5600", x.impl, x.pred)
 		}
 		// a caller-chosen ID of 0
 		for _, role := range []string{"server", "client"} {
-			impl, pred := runMuxIdZero(role)
+			impl, pred := boundedCell(60*time.Second, func() (string, string) { return runMuxIdZero(role) })
 			o.emit("!C08.id-zero role="+role, impl, pred)
 		}
 		// dial first, accept 2 s later, at two phases of the pair's life (3 s and 5.2 s after set-up)
@@ -1298,7 +1315,9 @@ func init() {
 				}
 			}
 			parallel(len(dgs), len(dgs), func(i int) {
-				dgs[i].impl, dgs[i].pred = runMuxDialFirstGap(dgs[i].role, time.Duration(dgs[i].start)*time.Millisecond, 2*time.Second)
+				dgs[i].impl, dgs[i].pred = boundedCell(90*time.Second, func() (string, string) {
+					return runMuxDialFirstGap(dgs[i].role, time.Duration(dgs[i].start)*time.Millisecond, 2*time.Second)
+				})
 			})
 			for _, x := range dgs {
 				o.emit(fmt.Sprintf("!C08.dial-first-gap role=%s start=%d gap=2000", x.role, x.start), x.impl, x.pred)
@@ -1306,20 +1325,22 @@ func init() {
 		}
 		// a knock nobody answers (dial first, no accept), then a fresh pair in the same direction: later dials are not held up
 		for _, role := range []string{"server", "client"} {
-			impl, pred := runMuxLiveness(role, "dial-unmatched")
+			impl, pred := boundedCell(90*time.Second, func() (string, string) { return runMuxLiveness(role, "dial-unmatched") })
 			o.emit("!C08.after-failed-knock role="+role, impl, pred)
 		}
 		// a brokered connection that connects a second time by itself (its server retires transports by age)
 		{
 			rc := []*rd{{role: "server"}, {role: "client"}}
-			parallel(len(rc), len(rc), func(i int) { rc[i].impl, rc[i].pred = runMuxReconnect(rc[i].role) })
+			parallel(len(rc), len(rc), func(i int) {
+				rc[i].impl, rc[i].pred = boundedCell(90*time.Second, func() (string, string) { return runMuxReconnect(rc[i].role) })
+			})
 			for _, x := range rc {
 				o.emit("!C08.reconnect role="+x.role, x.impl, x.pred)
 			}
 		}
 		// the same id accepted again after its first brokered server was shut down
 		for _, role := range []string{"server", "client"} {
-			impl, pred := runMuxReaccept(role)
+			impl, pred := boundedCell(60*time.Second, func() (string, string) { return runMuxReaccept(role) })
 			o.emit("!C08.reaccept role="+role, impl, pred)
 		}
 	})
